@@ -13,7 +13,8 @@ pub fn to_idl(v: &Value, env: &TypeEnv, t: &Type) -> IDLValue {
         ("null", _) => IDLValue::Null,
         ("reserved", _) => IDLValue::Reserved,
         ("bool", _) => IDLValue::Bool(v["b"].as_u64().unwrap() == 1),
-        ("num", TypeInner::Int) => IDLValue::Int(candid::Int(jnum(v))),
+        // a non-negative number at `int` is given either as an Int or (the leniency the untyped API documents) as a Nat
+        ("num", TypeInner::Int) => { let n = jnum(v); if n.sign() != num_bigint::Sign::Minus && n.bits() % 2 == 1 { IDLValue::Nat(candid::Nat(n.to_biguint().unwrap())) } else { IDLValue::Int(candid::Int(n)) } }
         ("num", _) => { let n = jnum(v); if n.sign() == num_bigint::Sign::Minus { IDLValue::Int(candid::Int(n)) } else { IDLValue::Nat(candid::Nat(n.to_biguint().unwrap())) } }
         ("text", _) => IDLValue::Text(jstr(&v["cps"])),
         ("principal", _) => IDLValue::Principal(candid::Principal::from_slice(&jbytes(&v["b"]))),
